@@ -39,8 +39,9 @@ INFO = dict(
                "equal to the model; batched_eq_unbatched_translated, pwa_mask_exact_translated, "
                "pwa_translated_end_to_end, chain_pwa_batched_translated, cachedPwa_history_pure_translated, "
                "apply_shape_translated state the property about the translated functions themselves.  A harmless "
-               "rewrite of the Python (renamed temporaries, re-ordered statements, inverted tests, early returns, De "
-               "Morgan) keeps the proofs; a changed decision (another bound, argument, branch, order of attribute "
+               "rewrite of the Python (renamed or extra temporaries, re-ordered statements, inverted tests, early returns "
+               "instead of else, De Morgan, a raising list comprehension instead of an append-loop - normalised by the "
+               "translator to the loop) keeps the proofs; a changed decision (another bound, argument, branch, order of attribute "
                "writes) or source outside the vocabulary breaks an obligation, followed by the directed search.  "
                "Further tied to /repo by (i) the correspondence: real histories (array reuse, in-place edits, inputs "
                "1e-7 apart), all batch sizes 1..n+2, zero/one point, integer dtypes, in/out-of-domain mixes, meshes "
@@ -52,7 +53,7 @@ INFO = dict(
                "defaults of batch_size; (iii) an independent fresh-transform / exact-geometry oracle that decides the "
                "property on the real code.",
     level_note="Trusted: Lean kernel; axioms propext/Classical.choice/Quot.sound; Python harness; driver parser; the "
-               "translator (harness/py2lean2.py, self-test tools/test_py2lean2.py: 384 evaluations Python vs #eval) and "
+               "translator (harness/py2lean2.py, self-test tools/test_py2lean2.py: 416 evaluations Python vs #eval) and "
                "the C09 rule tables (harness/trans_c09.py: which numpy expression is which operation of "
                "Core/C09Src.lean - einsum / nonzero / fancy indexing / broadcasting as transcribed there, exercised by "
                "the correspondence because the driver executes exactly those definitions).  Modelled, not verified: "
